@@ -11,6 +11,7 @@ import (
 
 	"github.com/cnotch/ipchub/media"
 	"github.com/cnotch/ipchub/network/socket/buffered"
+	"github.com/cnotch/ipchub/stats"
 	"github.com/cnotch/ipchub/zzverif/symapi"
 )
 
@@ -80,7 +81,8 @@ func (c *verifCam) answer() {
 			c.pending = []byte(ok + "\r\n")
 		}
 	case 1:
-		c.pending = []byte("RTSP/1.0 401 Unauthorized\r\nCSeq: " + cseq + "\r\nWWW-Authenticate: Digest realm=\"cam\", nonce=\"abc\"\r\n\r\n")
+		// every challenge carries a fresh nonce (cameras rotate them)
+		c.pending = []byte("RTSP/1.0 401 Unauthorized\r\nCSeq: " + cseq + "\r\nWWW-Authenticate: Digest realm=\"cam\", nonce=\"abc" + k + "\"\r\n\r\n")
 	case 2:
 		c.pending = []byte("RTSP/1.0 401 Unauthorized\r\nCSeq: " + cseq + "\r\nWWW-Authenticate: Basic realm=\"cam\"\r\n\r\n")
 	case 3:
@@ -145,6 +147,14 @@ func VerifPullOpen() {
 			} else {
 				cam.fault2Kind = symapi.IntRange("fault2Kind", 1, 6)
 			}
+		} else if cam.fault1Kind <= 2 {
+			// a camera that challenged once may challenge again later (fresh nonce, other scheme)
+			cam.fault2At = symapi.IntRange("fault2At", 0, 7)
+			if cam.fault2At <= cam.fault1At {
+				cam.fault2At = 0
+			} else {
+				cam.fault2Kind = symapi.IntRange("fault2Kind", 1, 2)
+			}
 		}
 	}
 	verifCamConn = cam
@@ -168,6 +178,12 @@ func VerifPullOpen() {
 		symapi.Assert(goroutines == 0, "failed-open-starts-no-goroutine")
 		symapi.Assert(media.Get("/pull/a") == nil, "failed-open-registers-nothing")
 		symapi.Reach("failed")
+		// a camera that only challenges (Digest or Basic, once or repeatedly, at any step) and
+		// otherwise answers normally accepts the route's credentials: the pull must succeed
+		challengesOnly := (cam.fault1At == 0 || cam.fault1Kind == 1 || cam.fault1Kind == 2) &&
+			(cam.fault2At == 0 || cam.fault2Kind == 1 || cam.fault2Kind == 2)
+		symapi.Assert(!(challengesOnly && !verifConnectFails && remote == urls[0] && cam.sdp != "not an sdp"),
+			"pull-succeeds-when-the-camera-only-challenges")
 	} else {
 		symapi.Assert(c.stream != nil && !c.closed, "successful-open-has-a-stream")
 		symapi.Assert(goroutines >= 1, "successful-open-starts-the-pull-goroutine")
@@ -190,6 +206,76 @@ func VerifPullExit() {
 	symapi.Assert(media.Get("/pull/a") == nil, "stream-unregistered-when-the-pull-ends")
 	symapi.Assert(cam.closed == 1 && c.closed, "connection-closed-once")
 	symapi.Assert(c.stream == nil && c.conn == nil, "client-reset")
+	symapi.Reach("end")
+}
+
+// verifStreamingCam keeps sending interleaved RTP frames; when it hands out its closeAt-th
+// frame the server side ends the pulled stream (closed by the idle sweep, or replaced by
+// another source registering on the same path).
+type verifStreamingCam struct {
+	verifCam
+	frames, total, closeAt int
+	after                  int // frames handed out after the stream was ended
+	ended                  bool
+	end                    func()
+}
+
+func (c *verifStreamingCam) Read(p []byte) (int, error) {
+	if c.closed > 0 {
+		return 0, errors.New("use of closed connection")
+	}
+	if len(c.pending) == 0 {
+		if c.frames >= c.total {
+			return 0, io.EOF
+		}
+		c.frames++
+		if c.ended {
+			c.after++
+		}
+		if c.frames == c.closeAt {
+			c.end()
+			c.ended = true
+		}
+		c.pending = []byte{'$', 0, 0, 14, 0x80, 96, 0, byte(c.frames), 0, 0, 0, 2, 0, 0, 0, 3, 0x41, 0xAA}
+	}
+	n := copy(p, c.pending)
+	c.pending = c.pending[n:]
+	return n, nil
+}
+
+// VerifPullStreamEnded: when the pulled stream is ended from the server side while the camera
+// keeps sending, the pull notices with the next packet: it stops reading, unregisters only its
+// own stream, closes the camera connection and releases the connection count.
+func VerifPullStreamEnded() {
+	c, _ := NewPullClient("/pull/a", "rtsp://cam/live")
+	cam := &verifStreamingCam{total: 6, closeAt: symapi.IntRange("endedAtFrame", 1, 3)}
+	replaced := symapi.Bool("replaced")
+	var other *media.Stream
+	c.closed = false
+	c.conn = buffered.NewConn(cam)
+	c.rawSdp = verifSdp
+	c.stream = media.NewStream(c.path, c.rawSdp)
+	own := c.stream
+	cam.end = func() {
+		if replaced {
+			other = media.NewStream("/pull/a", verifSdp)
+			media.Regist(other)
+		} else {
+			media.Unregist(own)
+		}
+	}
+	c.rtpChannels[ChannelVideo] = 0
+	conns0 := stats.RtspConns.GetSample().Active
+	c.playStream()
+	symapi.Assert(cam.after <= 1, "pull-stops-reading-once-its-stream-has-ended")
+	symapi.Assert(cam.closed == 1 && c.closed, "camera-connection-closed")
+	symapi.Assert(c.stream == nil && c.conn == nil, "client-reset")
+	if replaced {
+		symapi.Assert(media.Get("/pull/a") == other, "replacing-stream-stays-registered")
+	} else {
+		symapi.Assert(media.Get("/pull/a") == nil, "nothing-stays-registered")
+	}
+	symapi.Assert(stats.RtspConns.GetSample().Active == conns0, "connection-count-released")
 	symapi.Reach("end")
 }
 
